@@ -100,8 +100,8 @@ def handle (req : J) : J :=
        (match parseObjs mt with
         | .error e => .arr [.str "parse-failed", e.toJ]
         | .ok mobjs =>
-          let targets := (allDefinitions mobjs).map (·.1)
-          (match processArg home targets (expertLevels mobjs) arg with
+          let entries := targetEntries mobjs (expertLevels mobjs)
+          (match processArg home (entries.map (·.1)) (entries.map (·.2)) arg with
            | .ok objs => okJ (.arr (objs.map Obj.toJ))
            | .sorry_ kind paths => .arr [.str "err", .str "sorry", .str kind, .arr (paths.map J.text)]
            | .runtime e => e.toJ))
